@@ -638,6 +638,7 @@ class Interp:
         self.fork = None
         self.path = []          # guards taken: (condition term, value | ("not", values), location)
         self.effects = []       # recorded effects of modelled calls
+        self.track_overflow = False   # when set, checked arithmetic on symbolic integers yields a symbolic overflow flag (reported as may_panic)
         self.havoc = False      # unknown external calls return fresh terms instead of failing
         self.overrides = []     # (regex, model) checked before anything else
         install_models(self)
@@ -886,7 +887,7 @@ class Interp:
                         raise PanicReached("%s: assertion %s fails" % (fn.loc(t["ln"]), t["msg"]))
                 elif isinstance(c, Term):
                     if t["msg"] not in ("misaligned", "nullptr"):
-                        self.effects.append(("may_panic", t["msg"], fn.loc(t["ln"])))
+                        self.effects.append(("may_panic", t["msg"], fn.loc(t["ln"]), c, t["exp"]))
                 bi = t["to"]
             elif k == "drop":
                 bi = t["to"]
@@ -1002,9 +1003,12 @@ class Interp:
             pass
         if isinstance(a, Term) or isinstance(b, Term):
             if isinstance(a, (int, bool, Term)) and isinstance(b, (int, bool, Term)):
+                r = simplify_term(op.rstrip("?u"), a, b)
                 if op.endswith("?"):
-                    return Agg([Term(op.rstrip("?"), a, b), False], "tuple")
-                return Term(op, a, b)
+                    # the overflow flag of checked arithmetic on a symbolic machine integer is itself symbolic
+                    ovf = Term("overflow", op.rstrip("?"), a, b) if (isinstance(r, Term) and self.track_overflow) else False
+                    return Agg([r, ovf], "tuple")
+                return r
         if is_field(a) or is_field(b):
             raise Unanalysable("primitive binop on field value")
         if isinstance(a, (Ptr, SlicePtr)) or isinstance(b, (Ptr, SlicePtr)):
@@ -1531,6 +1535,30 @@ def install_models(I):
     M["core::fmt::Arguments::new"] = lambda I, a, f: Opaque("fmt")
     S.append(("fmt::Arguments::new_const", lambda I, a, f: Opaque("fmt")))
     S.append(("fmt::Arguments::new_v1", lambda I, a, f: Opaque("fmt")))
+
+
+def simplify_term(op, a, b):
+    """identities on machine-integer terms: x*0 = 0, x*1 = x, x+0 = x, (x - c) + c = x"""
+    isz = lambda v: isinstance(v, int) and not isinstance(v, bool) and v == 0
+    is1 = lambda v: isinstance(v, int) and not isinstance(v, bool) and v == 1
+    if op == "*":
+        if isz(a) or isz(b):
+            return 0
+        if is1(a):
+            return b
+        if is1(b):
+            return a
+    if op == "+":
+        if isz(a):
+            return b
+        if isz(b):
+            return a
+        for x, c in ((a, b), (b, a)):
+            if isinstance(x, Term) and x.op == "-" and len(x.args) == 2 and isinstance(c, int) and x.args[1] == c and not isinstance(c, bool):
+                return x.args[0]
+    if op == "-" and isz(b):
+        return a
+    return Term(op, a, b)
 
 
 def path_feasible(guards):
